@@ -52,3 +52,10 @@ Proof. eexists. eexists. split; [vm_compute; reflexivity|reflexivity]. Qed.
 Print Assumptions numeric_password_followed_by_a_word_survives_refuted.
 Print Assumptions hash_after_reserved_word_capture_survives_refuted.
 Print Assumptions two_matches_of_one_pattern_get_one_replacement_refuted.
+
+(* D19 (C07): two community commands on one line: only the last community string is replaced *)
+Theorem first_of_two_communities_survives_refuted :
+  exists out lk, rmi (lit "snmp-server community FIRSTsecret RO ; snmp-server community SECONDsecret RW") = Done (out, lk) /\
+                 out = lit "snmp-server community FIRSTsecret RO ; snmp-server community netconanRemoved0 RW".
+Proof. eexists. eexists. split; [vm_compute; reflexivity|reflexivity]. Qed.
+Print Assumptions first_of_two_communities_survives_refuted.
